@@ -14,6 +14,10 @@ namespace mpl = boost::mpl;
 namespace
 {
 struct wi_go {}; struct wi_deeper {}; struct wi_state_local {}; struct wi_machine_level {}; struct wi_deep_local {}; struct wi_unknown {};
+struct wi_act2 { template <class E, class F, class S, class T> void operator()(E const&, F&, S&, T&) {} };
+struct wi_act3 { template <class E, class F, class S, class T> void operator()(E const&, F&, S&, T&) {} };
+struct wi_g1 { template <class E, class F, class S, class T> bool operator()(E const&, F&, S&, T&) { return true; } };
+struct wi_g2 { template <class E, class F, class S, class T> bool operator()(E const&, F&, S&, T&) { return false; } };
 struct wi_act { template <class E, class F, class S, class T> void operator()(E const&, F&, S&, T&) {} };
 struct wi_st : public msm::front::state<>
 {
@@ -34,7 +38,10 @@ struct wi_machines
     typedef typename back_of<Low_>::type Low;
     struct Sub_ : public msm::front::state_machine_def<Sub_>
     {
-        struct A : wi_st { struct internal_transition_table : mpl::vector<msm::front::Internal<wi_state_local, wi_act, msm::front::none> > {}; };
+        // three internal rows of ONE state on the same event (a conflict inside the state's own internal table: last declared is tried first)
+        struct A : wi_st { struct internal_transition_table : mpl::vector<msm::front::Internal<wi_state_local, wi_act, msm::front::none>,
+                                                                          msm::front::Internal<wi_state_local, wi_act2, wi_g1>,
+                                                                          msm::front::Internal<wi_state_local, wi_act3, wi_g2> > {}; };
         typedef A initial_state;
         struct transition_table : mpl::vector<msm::front::Row<A, wi_deeper, Low, msm::front::none, msm::front::none> > {};
         struct internal_transition_table : mpl::vector<msm::front::Internal<wi_machine_level, wi_act, msm::front::none> > {};
@@ -63,7 +70,10 @@ template <template <typename...> class Back> struct wi_machines<Back, void>
     typedef typename back_of<Low_>::type Low;
     struct Sub_ : public msm::front::state_machine_def<Sub_>
     {
-        struct A : wi_st { struct internal_transition_table : mpl::vector<msm::front::Internal<wi_state_local, wi_act, msm::front::none> > {}; };
+        // three internal rows of ONE state on the same event (a conflict inside the state's own internal table: last declared is tried first)
+        struct A : wi_st { struct internal_transition_table : mpl::vector<msm::front::Internal<wi_state_local, wi_act, msm::front::none>,
+                                                                          msm::front::Internal<wi_state_local, wi_act2, wi_g1>,
+                                                                          msm::front::Internal<wi_state_local, wi_act3, wi_g2> > {}; };
         typedef A initial_state;
         struct transition_table : mpl::vector<msm::front::Row<A, wi_deeper, Low, msm::front::none, msm::front::none> > {};
         struct internal_transition_table : mpl::vector<msm::front::Internal<wi_machine_level, wi_act, msm::front::none> > {};
